@@ -125,16 +125,15 @@ var c03Entries = []c03Entry{
 }
 
 // c03One runs one (input, entry) pair.
-func c03One(input []byte, network bool, e c03Entry, typed, strct reflect.Type, plain bool) *pbt.Violation {
-	return c03OneOpt(input, network, e, typed, strct, plain, true)
+func c03One(input []byte, network bool, e c03Entry, typed, strct reflect.Type, delivery int) *pbt.Violation {
+	return c03OneOpt(input, network, e, typed, strct, delivery, true)
 }
 
-func c03OneOpt(input []byte, network bool, e c03Entry, typed, strct reflect.Type, plain, runPost bool) *pbt.Violation {
-	src := iox.NewSrc(input)
-	var r io.Reader = iox.ByteSrc{Src: src}
-	if plain {
-		r = iox.Plain{R: src}
-	}
+// delivery selects the reader TYPE the bytes arrive through (iox.NewDelivery): harness readers with and without
+// ReadByte, *bytes.Reader (what nbt.Unmarshal builds), *bytes.Buffer, *bufio.Reader, *strings.Reader.
+func c03OneOpt(input []byte, network bool, e c03Entry, typed, strct reflect.Type, delivery int, runPost bool) *pbt.Violation {
+	src := iox.NewDelivery(delivery, input)
+	r := src.R
 	var err error
 	var post func()
 	pv, stack := pbt.Try(func() { err, post = e.run(r, network, typed, strct) })
@@ -145,12 +144,16 @@ func c03OneOpt(input []byte, network bool, e c03Entry, typed, strct reflect.Type
 		return nil
 	}
 	// success implies well-formedness of exactly the consumed bytes
-	consumed := input[:src.Pos]
+	pos := src.Consumed()
+	if pos < 0 || pos > len(input) {
+		return pbt.V("harness:c03.accounting", "harness", "consumed %d of %d bytes through %s", pos, len(input), src.Kind)
+	}
+	consumed := input[:pos]
 	if !(len(consumed) == 1 && consumed[0] == 0) { // a lone TAG_End is the "no NBT" marker
 		_, _, n, derr := rn.Decode(consumed, network)
 		if derr != nil || n != len(consumed) {
 			return pbt.V("c03.accepts-malformed:"+e.name+":"+malformClass(derr), "success implies a well-formed document (negative lengths, unknown tag ids, prefixes are errors)",
-				"entry %s returned nil error on % x (consumed %d of %d bytes); reference reader: %v (n=%d)", e.name, clipB(input), src.Pos, len(input), derr, n)
+				"entry %s returned nil error on % x (consumed %d of %d bytes, read through %s); reference reader: %v (n=%d)", e.name, clipB(input), pos, len(input), src.Kind, derr, n)
 		}
 	}
 	if post != nil && runPost {
@@ -159,6 +162,15 @@ func c03OneOpt(input []byte, network bool, e c03Entry, typed, strct reflect.Type
 		}
 	}
 	return nil
+}
+
+// byteSum makes the choice of reader type a function of the input alone (a replayed input meets the same reader)
+func byteSum(b []byte) int {
+	n := 0
+	for _, x := range b {
+		n += int(x)
+	}
+	return n
 }
 
 func malformClass(err error) string {
@@ -255,7 +267,7 @@ func c03Run(c C03Case, record bool) (*pbt.Violation, c03Stats) {
 				continue
 			}
 			st.calls++
-			if v := c03One(input, c.Network, e, typed, strct, (len(input)+i)%2 == 0); v != nil {
+			if v := c03One(input, c.Network, e, typed, strct, len(input)+i+byteSum(input)); v != nil {
 				v.Msg += fmt.Sprintf("\n mutation class: %s; original tree: %s", kind, c.Tree)
 				c.OnlyInput, c.OnlyEntry = input, e.name
 				pbt.SaveReplay("C03", c, v)
@@ -303,7 +315,7 @@ func c03Run(c C03Case, record bool) (*pbt.Violation, c03Stats) {
 					continue // (a non-compound root is decoded, not skipped, even into struct{}: it allocates by length)
 				}
 				st.calls++
-				if v := c03OneOpt(in, c.Network, e, typed, strct, i%2 == 0, false); v != nil {
+				if v := c03OneOpt(in, c.Network, e, typed, strct, i+byteSum(in), false); v != nil {
 					v.Msg += fmt.Sprintf("\n mutation class: huge planted length %#x; original tree: %s", val, c.Tree)
 					c.OnlyInput, c.OnlyEntry = in, e.name
 					pbt.SaveReplay("C03", c, v)
@@ -509,7 +521,7 @@ func FuzzC03(f *testing.F) {
 		if gen.MaxDeclared(input, network) > gen.MaxPlanted {
 			return
 		}
-		if v := c03One(input, network, e, anyT, strct, sel&0x40 != 0); v != nil && !pbt.IsKnown(v.Key) {
+		if v := c03One(input, network, e, anyT, strct, int(sel>>4)); v != nil && !pbt.IsKnown(v.Key) {
 			pbt.SaveReplay("C03", C03Case{Tree: &rn.Tag{Type: rn.Byte}, Network: network, OnlyInput: input, OnlyEntry: e.name}, v)
 			t.Fatalf("VIOLATION-DETAIL C03 %s", v)
 		}
